@@ -212,6 +212,32 @@ def codec_layer(ck, n_cases):
                 ck.fail("rewriting the header with new statistics changed its size", inp)
         except Exception as e:
             ck.fail(f"in-place rewrite of an updated header raised {type(e).__name__}: {e}", inp)
+        # ---- a header whose size changed since it was written (shorter or longer) must not be rewritten in place:
+        # the offset to point data never changes under an in-place rewrite
+        try:
+            import laspy
+            how = ck.rng.choice(["shorter_padding", "pop_vlr", "longer_padding", "add_vlr"])
+            if how == "shorter_padding" and len(h.extra_vlr_bytes) > 0:
+                h.extra_vlr_bytes = h.extra_vlr_bytes[:-1]
+            elif how == "pop_vlr" and len(h.vlrs) > 0:
+                h.vlrs.pop()
+            elif how == "longer_padding":
+                h.extra_vlr_bytes = bytes(h.extra_vlr_bytes) + b"\0\0"
+            elif how == "add_vlr":
+                h.vlrs.append(laspy.VLR("verif", 1, "", b"abc"))
+            else:
+                how = None
+            if how is not None:
+                ck.count("resized_then_inplace:" + how)
+                buf3 = io.BytesIO()
+                try:
+                    h.write_to(buf3, ensure_same_size=True)
+                    ck.fail(f"a header that changed size ({how}) was rewritten in place: offset to point data "
+                            f"{int.from_bytes(buf3.getvalue()[96:100], 'little')} instead of {len(data)}", dict(inp, resized=how))
+                except laspy.errors.LaspyException:
+                    pass
+        except Exception as e:
+            ck.fail(f"in-place rewrite of a resized header raised {type(e).__name__}: {e}", inp)
         if ci < 2:
             ck.sample({"header": inp["fields"]})
     return lines, meta
